@@ -5,6 +5,7 @@ package decoder
 
 import (
 	"context"
+	"strings"
 
 	"github.com/hashicorp/hcl-lang/lang"
 	"github.com/hashicorp/hcl-lang/reference"
@@ -108,6 +109,11 @@ func (ref Reference) CompletionAtPos(ctx context.Context, pos hcl.Pos) []lang.Ca
 	candidates := make([]lang.Candidate, 0)
 	ref.pathCtx.ReferenceTargets.MatchWalk(ctx, ref.cons, prefix, outerBodyRng, editRng, func(target reference.Target) error {
 		address := target.Address(ctx, editRng.Start).String()
+		if !strings.HasPrefix(address, prefix) {
+			// the target matched through its absolute address but is
+			// addressed locally (self.*) from this position
+			return nil
+		}
 
 		candidates = append(candidates, lang.Candidate{
 			Label:       address,
